@@ -165,7 +165,8 @@ def run(ctx):
     reuse(ctx, c08.run, ("C08.ratio", "C08.var"), "C18def", "identities shared with C08: the recorded incremental ratio (and its variance) must be the log of the mean incremental weight "
           "over all N particles of the stored population, or it does not equal its definition recomputed from the stored populations")
     from . import c10
-    reuse(ctx, lambda c: c10.own_rule(c, fields=c10.DENSITY_FIELDS), ("C10.own",), "C18own", "ownership rule shared with C10: the history stores the population objects themselves, so an in-place write into "
+    hist_fields = tuple(f_.name for f_ in repo.cls("aspire.history:SMCHistory").fields())
+    reuse(ctx, lambda c: c10.own_rule(c, fields=c10.DENSITY_FIELDS + hist_fields), ("C10.own",), "C18own", "ownership rule shared with C10: the history stores the population objects themselves, so an in-place write into "
           "a caller's array rewrites a population that was already recorded")
     reuse(ctx, c11.run, ("C11.restore",), "C18res", "restore rule shared with C11: the record of a resumed run starts with the checkpointed history; if the restore replaces it "
           "(a default, an `or` on an object that can be falsy), the entries of the iterations before the interruption are gone",
@@ -269,6 +270,11 @@ MUTANTS += [
 ]
 MUTANTS += [
     M("restored history replaced by a fresh one", "src/aspire/samplers/smc/base.py", "self.history = copy.deepcopy(state.get(\"history\", SMCHistory()))", "self.history = SMCHistory()", "C18res.restore"),
+]
+MUTANTS += [
+    M("evidence total accumulated in place into the first recorded increment", "src/aspire/samplers/smc/base.py", "samples.log_evidence = samples.xp.sum(\n            asarray(self.history.log_norm_ratio, self.xp)\n        )",
+      "samples.log_evidence = _running_total(self.history.log_norm_ratio)", "C18own.own",
+      more=[("class SMCSampler(MCMCSampler):", "def _running_total(values):\n    total = values[0]\n    for value in values[1:]:\n        total += value\n    return total\n\n\nclass SMCSampler(MCMCSampler):")]),
 ]
 NEUTRALS = [
     __import__("aspire_sa.rules.smcloop", fromlist=["HELPER_NEUTRAL"]).HELPER_NEUTRAL,
